@@ -136,6 +136,20 @@ CHECKS.update({
     note=TB, technique='Coq proofs of the characterisation + oracle equivalence; correspondence', design='§7 C17'),
 })
 
+CHECKS.update({
+ 'C06': dict(
+    text='Machine-checked proof about the modelled COPY DISCIPLINE (identities of metadata containers and of their nested mutable values; each '
+         'export / copy / derived-graph operation allocates or shares identities according to a 19-row table): after ANY history of graph mutations, '
+         'exports, derived-graph constructions and mutations applied to exports, the identity sets reachable from the graph and from every export are '
+         'pairwise disjoint and distinct nodes / edges of a derived graph share nothing (sep_run), so mutating an export is invisible to the graph and to '
+         'every other export, later graph changes do not reach earlier exports, and producing an export is read-only. The single exception, to_dict '
+         'sharing NESTED values, is refuted in Coq and recorded as finding F9. The table is RE-MEASURED on live Python objects by id() on every run and '
+         'compared with the model\'s table, and the behavioural statement of the property is tested directly (export, mutate in every way the type allows, '
+         'export again, mutate the graph, first vs later calls).',
+    note=TB + 'Partial by nature: the theorem is about the modelled allocation discipline; that deepcopy / dict.copy / numpy / networkx allocate as modelled is measured, not proved. One source graph; exports of derived graphs are not modelled.',
+    technique='Coq proof of separation invariant over a table-defined identity model; table re-measured by id() + behavioural mutation tests', design='§7 C06'),
+})
+
 
 def main():
     checks = []
